@@ -173,6 +173,11 @@ namespace AIToolbox::MDP {
     }
 
     template <IsGenerativeModel M>
+    void DynaQ<M>::setN(const unsigned n) {
+        N = n;
+    }
+
+    template <IsGenerativeModel M>
     const QFunction & DynaQ<M>::getQFunction() const {
         return qLearning_.getQFunction();
     }
